@@ -149,7 +149,7 @@ def hop_to_coq(op):
     if k == "flush":
         return "HFlush"
     if k == "reopen":
-        return "HReopen"
+        return "(HReopen %s)" % G.zlit(op[1])
     if k == "block":
         return "(HBlockRaw %s %s)" % (G.zlit(op[1]), G.hx(op[2]))
     raise ValueError(k)
